@@ -168,13 +168,33 @@ def gen_case(streams, tier):
             _gen_scope(w, st, 0, frozenset(), data)
         else:
             st["stmts"].append(["g", _fix(_gate(w, data))])
-    # overlapping (non-nested) scratch lifetimes: alloc A, alloc B, dealloc A, dealloc B
-    if w.random() < 0.3 and st["allocs"] <= 4:
-        a, b = st["allocs"], st["allocs"] + 1
-        st["allocs"] += 2
-        st["stmts"] += [["alloc", a, 1, "zero", False], ["g", ["CNOT", [data[0], ["d", a, 0]], []]],
-                        ["alloc", b, 1, "zero", False], ["g", ["CNOT", [["d", a, 0], ["d", b, 0]], []]],
-                        ["dealloc", a], ["g", ["CNOT", [["d", b, 0], data[-1]], []]], ["dealloc", b]]
+    # free-form scratch segment: allocations whose lifetimes overlap WITHOUT nesting (deallocated in any
+    # order), gates on any live wire at any time, later allocations after earlier ones were returned dirty
+    if w.random() < 0.45 and st["allocs"] <= 3:
+        live = []
+        for _ in range(w.randint(4, 11)):
+            r = w.random()
+            if r < 0.35 and len(live) < 3 and st["allocs"] < 6:
+                aid = st["allocs"]
+                st["allocs"] += 1
+                st["stmts"].append(["alloc", aid, 1, "zero", False])
+                live.append(aid)
+                if len(live) >= 2 and w.random() < 0.5:
+                    # hand back the OLDEST live wire right after a newer one was opened (non-LIFO order)
+                    st["stmts"].append(["dealloc", live.pop(0)])
+            elif r < 0.50 and live:
+                aid = live.pop(w.randrange(len(live)))  # not necessarily the most recent one
+                st["stmts"].append(["dealloc", aid])
+            elif live and w.random() < 0.6:
+                # make the newest scratch wire matter: entangle it with a data wire, in either direction
+                a, d = ["d", live[-1], 0], w.choice(data)
+                st["stmts"].append(["g", ["CNOT", [d, a] if w.random() < 0.5 else [a, d], []]])
+            else:
+                pool = data + [["d", a, 0] for a in live]
+                g = _fix(_gate(w, list(range(len(pool)))))
+                st["stmts"].append(["g", [g[0], [pool[i] for i in g[1]], g[2]]])
+        for aid in live:
+            st["stmts"].append(["dealloc", aid])
     need = 3
     exhaust = f.random() < 0.33
     nz = f.randint(0, 1) if exhaust else f.randint(0, need)
